@@ -22,7 +22,8 @@ for name in sorted(os.listdir(root)):
         print(f"| {name} | {first} | - | not run |")
     for k, v in det.items():
         if k.startswith("condition:"):
-            res = "**detected** (condition-level: engine counterexample, replayed natively)" if v.get("detected") else f"not detected ({v.get('status')})"
+            res = ("**detected** (condition-level: native False on a conformance input of the property function, replayed; the traced run is blind)" if v.get("native_conformance_input")
+                   else "**detected** (condition-level: engine counterexample, replayed natively)") if v.get("detected") else f"not detected ({v.get('status')})"
             print(f"| {name} | {first} | condition `{v['harness']}:{v['function']}` {v.get('env') or ''} ({v['wall_s']} s) | {res} |")
             continue
         res = "**detected** (VIOLATION, replayed)" if v["exit"] == 1 else "missed (exit 0)" if v["exit"] == 0 else "inconclusive (exit 3)"
